@@ -58,8 +58,10 @@ def _snap_ok(ctx, bar, model, where):
     ctx.check(ln == len(model.entries), "len", lambda: "%s: len %r" % (where, ln))
 
 
-def run_history(ctx, case):
-    """case = {"meter": [n, d], "ops": [...]}; returns flags for the non-triviality rule"""
+def run_history(ctx, case, sparse=False):
+    """case = {"meter": [n, d], "ops": [...]}; returns flags for the non-triviality rule.
+    sparse: compare the whole bar with the model only every 64th step and during the last 6 steps (long single-value
+    fills would otherwise cost O(k^2)); acceptance, refusal and the current beat are still checked at every step"""
     meter = case["meter"]
     bar = ctx.ok("constructor", Bar, "C", (meter[0], meter[1]))
     if failed(bar):
@@ -137,7 +139,11 @@ def run_history(ctx, case):
             ctx.ok("place_notes_at", bar.place_notes_at, NoteContainer(["%s-%d" % (n, o) for (n, o) in notes]), bar.bar[i][0])
             model.entries[i][2] = content_model(model.entries[i][2] + notes)
         flags["steps"] += 1
-        _snap_ok(ctx, bar, model, where)
+        if not sparse or k % 64 == 0 or k >= len(case["ops"]) - 6:
+            _snap_ok(ctx, bar, model, where)
+        else:
+            ctx.check(abs(bar.current_beat - float(model.total)) <= TOL and len(bar.bar) == len(model.entries), "current-beat",
+                      lambda: "%s: current_beat %r, exact %s" % (where, bar.current_beat, model.total))
     return flags
 
 
@@ -156,7 +162,7 @@ def check_fill(ctx, case):
     meter, v, k = case["meter"], case["v"], case["k"]
     ops = [["place", "str", [["C", 4]], v]] * k
     probe = case.get("probe", v)
-    flags = run_history(ctx, {"meter": meter, "ops": ops + [["place", "note", [["D", 4]], probe], ["rest", probe]]})
+    flags = run_history(ctx, {"meter": meter, "ops": ops + [["place", "note", [["D", 4]], probe], ["rest", probe]]}, sparse=k > 64)
     if flags is not None:
         ctx.check(flags["capacity"] or flags["steps"] < k, "fill/never-reached-capacity", repr(case))
     ctx.note_case(k > 1, ["fill:k>100" if k > 100 else "fill:k<=100"])
